@@ -12,7 +12,11 @@ SPEC = {
             "numerals beyond 2^64 and 2^128, seeded random magnitudes; ~70 non-numeral texts; absent arguments; "
             "token lists: all 111111 lists of <=5 tokens over {a,-,--,-x,-xy,--k,--k=v,--k=,--=v,\"\"} x every subset of read "
             "groups before assert_none_unused (exhaustive), half of them with get_multi on an absent name first and single getters for it afterwards; "
-            "getter histories on one object: 5 command lines x 84 getter calls (13 per option name n,s,f,x,r incl. bool/string/int/float/default/"
+            "dash-run tokens: all 16105 lists of <=4 tokens over {---,----,-----,---=v,---a,'--- ',a,--,-,-x,--k=v} with the same two phases "
+            "(exhaustive; option name = text after the first two dashes); repeated options: --r given 2-3 times over the texts "
+            "{80,300,70000,-3,1.5,http,''} (392 value lists) alone or between a positional and another option x every sequence of "
+            "<=4 / <=3 calls from {get_multi<string|int16_t|uint8_t|double>(r), assert_none_unused, get<string>(0), get<int32_t>(n)} "
+            "with an instance-level read model (exhaustive); getter histories on one object: 5 command lines x 84 getter calls (13 per option name n,s,f,x,r incl. bool/string/int/float/default/"
             "get_multi, 6 per position 0,1,5, assert_none_unused): every call alone, every ordered pair, every ordered triple over the calls "
             "sharing a target, seeded cross-target triples - each call must yield what the statement gives for an absent target / what it "
             "yields first on a fresh object for a present one, assert_none_unused judged by a read model; "
@@ -36,6 +40,9 @@ SPEC = {
         "absent:int:*", "absent:float:*", "absent:string-bool-multi",
         "tokens:len5:pos5:names0", "tokens:len5:pos0:names4", "tokens:len0:pos0:names0", "tokens:maxgroups*",
         "multi:*:fit", "multi:*:unfit", "typed-used:*",
+        "dashes:len4:pos0:names4", "dashes:len4:pos4:names0", "dashes:maxgroups*",
+        "repeated:n2:i16-fails-midway:*", "repeated:n3:i16-fails-midway:*", "repeated:n3:*:u8-fails-midway:*", "repeated:n3:*:dbl-fails-midway",
+        "repeated:n3:i16-all-ok:*",
         "history:pairs-all-ordered", "history:triples-same-target", "history:world0:name:absent", "history:world0:name:present",
         "history:world0:position:absent", "history:world1:name:absent", "history:world4:name:present",
         "float:double:exp:*", "float:float:frac:neg", "float:double:garbage", "float:double:subnormal:*", "float:double:overflow-inf:*",
